@@ -66,11 +66,19 @@ func c16Resolved(reqs []VerifC16Req, vulns []string) *remediation.ResolvedManife
 	return r
 }
 
+// VerifC16PreRead, when set, runs at the very start of every patchFunc call, BEFORE the vuln-id slice it was handed is
+// read: the harness uses it to perturb the schedule (Gosched / short sleeps) between the collector launching a
+// follow-up attempt and that attempt looking at its ids.
+var VerifC16PreRead func()
+
 // VerifC16ComputePatches calls common.ComputePatches(patchFunc, resolved, groupIntroduced) where resolved is a
 // manifest with the given requirements and vulnerabilities and patchFunc forwards to fn (which may block).
 func VerifC16ComputePatches(reqs []VerifC16Req, vulns []string, grouped bool, fn func(ids []string) VerifC16Outcome) ([]result.Patch, error) {
 	resolved := c16Resolved(reqs, vulns)
 	patchFunc := func(ids []string) common.StrategyResult {
+		if VerifC16PreRead != nil {
+			VerifC16PreRead()
+		}
 		o := fn(append([]string(nil), ids...))
 		switch o.Err {
 		case 1:
